@@ -16,6 +16,8 @@ package tso
 
 import (
 	"sync/atomic"
+
+	"github.com/kubewharf/kubebrain/pkg/verifhook"
 )
 
 // TSO is the controller of continuous revision windows
@@ -64,6 +66,7 @@ func (n *naiveTSO) Commit(revision uint64) {
 	atomic.StoreUint64(&n.committedRevision, revision)
 	// in case leader transfer, need to update tso and pre tso
 	preTSO := atomic.LoadUint64(&n.dealRevision)
+	verifhook.Yield("tso.commit", preTSO, revision)
 	if preTSO < revision {
 		atomic.CompareAndSwapUint64(&n.dealRevision, preTSO, revision)
 	}
